@@ -3719,6 +3719,490 @@ pub proof fn lemma_c06_transitions(st: NodeStamp, g: i16)
 {
 }
 
+// ---- descendants() as a whole sequence (C09: depth-first pre-order) -----------------------------
+/// the nodes of the Start edges of an edge sequence, in order
+pub open spec fn starts(e: Seq<NodeEdge>) -> Seq<NodeId>
+    decreases e.len(),
+{
+    if e.len() == 0 {
+        Seq::empty()
+    } else {
+        match e[0] {
+            NodeEdge::Start(n) => seq![n] + starts(e.drop_first()),
+            NodeEdge::End(_) => starts(e.drop_first()),
+        }
+    }
+}
+
+/// depth-first pre-order of the subtree of n: n, then the pre-orders of its children in order
+pub open spec fn preorder_node<T>(s: Seq<Node<T>>, w: Ranks, n: NodeId) -> Seq<NodeId>
+    decreases w.bound - (w.depth)(n.idx()), 1int, 0int,
+{
+    let i = n.idx();
+    if 0 <= i < s.len() && (w.depth)(i) <= w.bound {
+        seq![n] + preorder_list(s, w, s[i].first_child, n)
+    } else {
+        seq![n]
+    }
+}
+
+pub open spec fn preorder_list<T>(s: Seq<Node<T>>, w: Ranks, c: Option<NodeId>, p: NodeId) -> Seq<NodeId>
+    decreases w.bound - (w.depth)(p.idx()), 0int, (if c is Some { (w.rem)(c->0.idx()) + 1 } else { 0 }),
+{
+    if c is Some && 0 <= c->0.idx() < s.len() && (w.depth)(c->0.idx()) > (w.depth)(p.idx()) && (w.depth)(c->0.idx()) <= w.bound {
+        let ci = c->0.idx();
+        let nx = s[ci].next_sibling;
+        preorder_node(s, w, c->0) + (if nx is Some && (w.rem)(nx->0.idx()) < (w.rem)(ci) {
+            preorder_list(s, w, nx, p)
+        } else {
+            Seq::empty()
+        })
+    } else {
+        Seq::empty()
+    }
+}
+
+pub proof fn lemma_starts_concat(a: Seq<NodeEdge>, b: Seq<NodeEdge>)
+    // @props C09
+    ensures
+        starts(a + b) =~= starts(a) + starts(b),
+    decreases a.len(),
+{
+    if a.len() == 0 {
+        assert(a + b =~= b);
+    } else {
+        assert((a + b).drop_first() =~= a.drop_first() + b);
+        lemma_starts_concat(a.drop_first(), b);
+    }
+}
+
+pub proof fn lemma_starts_one(e: NodeEdge)
+    // @props C09
+    ensures
+        starts(seq![e]) =~= (match e {
+            NodeEdge::Start(n) => seq![n],
+            NodeEdge::End(_) => Seq::empty(),
+        }),
+{
+    assert(seq![e].drop_first() =~= Seq::<NodeEdge>::empty());
+    assert(starts(Seq::<NodeEdge>::empty()) =~= Seq::<NodeId>::empty());
+}
+
+/// C09: the Start edges of the tour of n are the pre-order of the subtree of n
+pub proof fn lemma_tour_starts_node<T>(s: Seq<Node<T>>, w: Ranks, n: NodeId)
+    // @props C09
+    ensures
+        starts(tour_node(s, w, n)) =~= preorder_node(s, w, n),
+    decreases w.bound - (w.depth)(n.idx()), 1int, 0int,
+{
+    let i = n.idx();
+    lemma_starts_one(NodeEdge::Start(n));
+    lemma_starts_one(NodeEdge::End(n));
+    if 0 <= i < s.len() && (w.depth)(i) <= w.bound {
+        let l = tour_list(s, w, s[i].first_child, n);
+        lemma_tour_starts_list(s, w, s[i].first_child, n);
+        lemma_starts_concat(seq![NodeEdge::Start(n)], l);
+        lemma_starts_concat(seq![NodeEdge::Start(n)] + l, seq![NodeEdge::End(n)]);
+    } else {
+        assert(seq![NodeEdge::Start(n), NodeEdge::End(n)] =~= seq![NodeEdge::Start(n)] + seq![NodeEdge::End(n)]);
+        lemma_starts_concat(seq![NodeEdge::Start(n)], seq![NodeEdge::End(n)]);
+    }
+}
+
+pub proof fn lemma_tour_starts_list<T>(s: Seq<Node<T>>, w: Ranks, c: Option<NodeId>, p: NodeId)
+    // @props C09
+    ensures
+        starts(tour_list(s, w, c, p)) =~= preorder_list(s, w, c, p),
+    decreases w.bound - (w.depth)(p.idx()), 0int, (if c is Some { (w.rem)(c->0.idx()) + 1 } else { 0 }),
+{
+    if c is Some && 0 <= c->0.idx() < s.len() && (w.depth)(c->0.idx()) > (w.depth)(p.idx()) && (w.depth)(c->0.idx()) <= w.bound {
+        let ci = c->0.idx();
+        let nx = s[ci].next_sibling;
+        lemma_tour_starts_node(s, w, c->0);
+        if nx is Some && (w.rem)(nx->0.idx()) < (w.rem)(ci) {
+            lemma_tour_starts_list(s, w, nx, p);
+            lemma_starts_concat(tour_node(s, w, c->0), tour_list(s, w, nx, p));
+        } else {
+            assert(tour_node(s, w, c->0) + Seq::<NodeEdge>::empty() =~= tour_node(s, w, c->0));
+            assert(preorder_node(s, w, c->0) + Seq::<NodeId>::empty() =~= preorder_node(s, w, c->0));
+        }
+    } else {
+        assert(starts(Seq::<NodeEdge>::empty()) =~= Seq::<NodeId>::empty());
+    }
+}
+
+/// the state (`Traverse::next` field) of `node.descendants(arena)` before its k-th call of `next`,
+/// exactly as the contract of `Descendants::next` determines it
+pub open spec fn desc_state<T>(s: Seq<Node<T>>, w: Ranks, root: NodeId, k: nat) -> Option<NodeEdge>
+    decreases k,
+{
+    if k == 0 {
+        Some(NodeEdge::Start(root))
+    } else {
+        match first_start(s, w, root, desc_state(s, w, root, (k - 1) as nat)) {
+            Some(st) => trav_step(s, root, st),
+            None => None,
+        }
+    }
+}
+
+/// what the k-th call of `Descendants::next` returns, by its contract
+pub open spec fn desc_out<T>(s: Seq<Node<T>>, w: Ranks, root: NodeId, k: nat) -> Option<NodeId> {
+    match first_start(s, w, root, desc_state(s, w, root, k)) {
+        Some(NodeEdge::Start(n)) => Some(n),
+        _ => None,
+    }
+}
+
+/// the edge at position j of a tour, None past its end
+pub open spec fn edge_at(t: Seq<NodeEdge>, j: int) -> Option<NodeEdge> {
+    if 0 <= j < t.len() {
+        Some(t[j])
+    } else {
+        None
+    }
+}
+
+/// the first position >= j that holds a Start edge (t.len() if there is none)
+pub open spec fn skip_ends(t: Seq<NodeEdge>, j: int) -> int
+    decreases t.len() - j,
+{
+    if 0 <= j < t.len() {
+        if t[j] is Start {
+            j
+        } else {
+            skip_ends(t, j + 1)
+        }
+    } else {
+        t.len() as int
+    }
+}
+
+pub proof fn lemma_skip_ends(t: Seq<NodeEdge>, j: int)
+    // @props C09
+    requires
+        0 <= j <= t.len(),
+    ensures
+        j <= skip_ends(t, j) <= t.len(),
+        skip_ends(t, j) < t.len() ==> t[skip_ends(t, j)] is Start,
+        starts(t.subrange(j, t.len() as int)) =~= starts(t.subrange(skip_ends(t, j), t.len() as int)),
+        skip_ends(t, j) < t.len() ==> starts(t.subrange(j, t.len() as int)) =~= seq![edge_node(t[skip_ends(t, j)])] + starts(
+            t.subrange(skip_ends(t, j) + 1, t.len() as int),
+        ),
+        skip_ends(t, j) == t.len() ==> starts(t.subrange(j, t.len() as int)) =~= Seq::<NodeId>::empty(),
+    decreases t.len() - j,
+{
+    let n = t.len() as int;
+    if j < n {
+        let u = t.subrange(j, n);
+        assert(u.drop_first() =~= t.subrange(j + 1, n));
+        assert(u[0] == t[j]);
+        if t[j] is Start {
+        } else {
+            lemma_skip_ends(t, j + 1);
+        }
+    } else {
+        assert(t.subrange(j, n) =~= Seq::<NodeEdge>::empty());
+    }
+}
+
+/// `first_start` from position j of the tour of root lands on the first Start at or after j
+pub proof fn lemma_first_start_on_tour<T>(s: Seq<Node<T>>, w: Ranks, root: NodeId, j: int)
+    // @props C09
+    requires
+        links_ok(s),
+        ranked(s, w),
+        tgt_ok(s, Some(root)),
+        0 <= j <= tour_node(s, w, root).len(),
+    ensures
+        first_start(s, w, root, edge_at(tour_node(s, w, root), j)) == edge_at(tour_node(s, w, root), skip_ends(tour_node(s, w, root), j)),
+    decreases tour_node(s, w, root).len() - j,
+{
+    lemma_tour_node(s, w, root);
+    let t = tour_node(s, w, root);
+    let n = t.len() as int;
+    if j < n {
+        if t[j] is Start {
+        } else {
+            // an End edge: the traversal steps on (or stops at End(root), the last edge)
+            assert(j > 0);
+            if j < n - 1 {
+                lemma_tour_interior(s, w, root, j);
+                assert(t[j] != NodeEdge::End(root));
+                assert(next_edge(s, t[j]) == Some(t[j + 1]));
+                lemma_desc_step(s, w, root, t[j]);
+                assert(trav_step(s, root, t[j]) == edge_at(t, j + 1));
+            } else {
+                assert(t[j] == NodeEdge::End(root));
+                assert(trav_step(s, root, t[j]) == edge_at(t, j + 1));
+            }
+            lemma_first_start_on_tour(s, w, root, j + 1);
+        }
+    }
+}
+
+/// the tour position after one call of `Descendants::next` made at position j
+pub open spec fn desc_next_pos(t: Seq<NodeEdge>, j: int) -> int {
+    let j1 = skip_ends(t, j);
+    if j1 < t.len() {
+        j1 + 1
+    } else {
+        t.len() as int
+    }
+}
+
+/// position in the tour of root that the state before the k-th call of `Descendants::next` points at
+pub open spec fn desc_pos<T>(s: Seq<Node<T>>, w: Ranks, root: NodeId, k: nat) -> int
+    decreases k,
+{
+    if k == 0 {
+        0
+    } else {
+        desc_next_pos(tour_node(s, w, root), desc_pos(s, w, root, (k - 1) as nat))
+    }
+}
+
+/// one call of `Descendants::next` at tour position j: what it returns and where it leaves the state
+pub proof fn lemma_desc_call<T>(s: Seq<Node<T>>, w: Ranks, root: NodeId, j: int)
+    // @props C09
+    requires
+        links_ok(s),
+        ranked(s, w),
+        tgt_ok(s, Some(root)),
+        0 <= j <= tour_node(s, w, root).len(),
+    ensures
+        ({
+            let t = tour_node(s, w, root);
+            let n = t.len() as int;
+            let fs = first_start(s, w, root, edge_at(t, j));
+            let rest = starts(t.subrange(j, n));
+            let j2 = desc_next_pos(t, j);
+            &&& j <= j2 <= n
+            &&& (match fs {
+                Some(st) => trav_step(s, root, st),
+                None => None,
+            }) == edge_at(t, j2)
+            &&& (match fs {
+                Some(NodeEdge::Start(x)) => Some(x),
+                _ => None,
+            }) == (if rest.len() > 0 {
+                Some(rest[0])
+            } else {
+                None
+            })
+            &&& starts(t.subrange(j2, n)) =~= (if rest.len() > 0 {
+                rest.drop_first()
+            } else {
+                rest
+            })
+        }),
+{
+    lemma_tour_node(s, w, root);
+    let t = tour_node(s, w, root);
+    let n = t.len() as int;
+    lemma_skip_ends(t, j);
+    lemma_first_start_on_tour(s, w, root, j);
+    let j1 = skip_ends(t, j);
+    let rest = starts(t.subrange(j, n));
+    if j1 < n {
+        // a Start edge lies strictly before the final End(root): the traversal steps to the next position
+        assert(t[j1] is Start);
+        assert(j1 < n - 1);
+        assert(t[j1] != NodeEdge::End(root));
+        assert(next_edge(s, t[j1]) == Some(t[j1 + 1]));
+        let tail = starts(t.subrange(j1 + 1, n));
+        assert(rest =~= seq![edge_node(t[j1])] + tail);
+        assert(rest.drop_first() =~= tail);
+    } else {
+        assert(t.subrange(n, n) =~= Seq::<NodeEdge>::empty());
+        assert(starts(t.subrange(n, n)) =~= Seq::<NodeId>::empty());
+    }
+}
+
+pub proof fn lemma_desc_pos<T>(s: Seq<Node<T>>, w: Ranks, root: NodeId, k: nat)
+    // @props C09
+    requires
+        links_ok(s),
+        ranked(s, w),
+        tgt_ok(s, Some(root)),
+    ensures
+        ({
+            let t = tour_node(s, w, root);
+            let j = desc_pos(s, w, root, k);
+            &&& 0 <= j <= t.len()
+            &&& desc_state(s, w, root, k) == edge_at(t, j)
+            &&& starts(t.subrange(j, t.len() as int)) =~= (if k <= starts(t).len() {
+                starts(t).skip(k as int)
+            } else {
+                Seq::empty()
+            })
+        }),
+    decreases k,
+{
+    lemma_tour_node(s, w, root);
+    let t = tour_node(s, w, root);
+    let n = t.len() as int;
+    let p = starts(t);
+    if k == 0 {
+        assert(t.subrange(0, n) =~= t);
+        assert(p.skip(0) =~= p);
+    } else {
+        lemma_desc_pos(s, w, root, (k - 1) as nat);
+        let j0 = desc_pos(s, w, root, (k - 1) as nat);
+        lemma_desc_call(s, w, root, j0);
+        let rest = starts(t.subrange(j0, n));
+        if k - 1 < p.len() {
+            assert(rest =~= p.skip(k - 1));
+            assert(rest.len() > 0);
+            assert(p.skip(k - 1).drop_first() =~= p.skip(k as int));
+        } else {
+            assert(rest.len() == 0);
+        }
+    }
+}
+
+/// C09: `node.descendants(arena)` yields exactly the depth-first pre-order of the subtree of the
+/// node (the Start edges of its tour, in order) and then None forever
+pub proof fn lemma_descendants_is_preorder<T>(s: Seq<Node<T>>, w: Ranks, root: NodeId, k: nat)
+    // @props C09
+    requires
+        links_ok(s),
+        ranked(s, w),
+        tgt_ok(s, Some(root)),
+    ensures
+        k < preorder_node(s, w, root).len() ==> desc_out(s, w, root, k) == Some(preorder_node(s, w, root)[k as int]),
+        k >= preorder_node(s, w, root).len() ==> desc_out(s, w, root, k) is None,
+{
+    lemma_tour_starts_node(s, w, root);
+    lemma_desc_pos(s, w, root, k);
+    let t = tour_node(s, w, root);
+    let p = preorder_node(s, w, root);
+    assert(starts(t) =~= p);
+    let j = desc_pos(s, w, root, k);
+    lemma_desc_call(s, w, root, j);
+    if k < p.len() {
+        assert(p.skip(k as int).len() > 0);
+        assert(p.skip(k as int)[0] == p[k as int]);
+    }
+}
+
+// ---- C02: a parent walk ends in fewer steps than there are nodes (pigeonhole) --------------------
+/// the live slots ("the nodes there are")
+pub open spec fn live_set<T>(s: Seq<Node<T>>) -> Set<int> {
+    vstd::set_lib::set_int_range(0, s.len() as int).filter(|i: int| !s[i].stamp.removed())
+}
+
+/// the slot reached from i by following `parent` k times (staying put at a parentless node)
+pub open spec fn up<T>(s: Seq<Node<T>>, i: int, k: nat) -> int
+    decreases k,
+{
+    if k == 0 {
+        i
+    } else {
+        let j = up(s, i, (k - 1) as nat);
+        if 0 <= j < s.len() && s[j].parent is Some {
+            s[j].parent->0.idx()
+        } else {
+            j
+        }
+    }
+}
+
+/// number of parent links between i and the parentless node above it
+pub open spec fn height<T>(s: Seq<Node<T>>, w: Ranks, i: int) -> nat
+    decreases (w.depth)(i),
+{
+    if 0 <= i < s.len() && s[i].parent is Some && (w.depth)(s[i].parent->0.idx()) < (w.depth)(i) {
+        height(s, w, s[i].parent->0.idx()) + 1
+    } else {
+        0
+    }
+}
+
+/// i and its ancestors
+pub open spec fn anc_set<T>(s: Seq<Node<T>>, w: Ranks, i: int) -> Set<int>
+    decreases (w.depth)(i),
+{
+    if 0 <= i < s.len() && s[i].parent is Some && (w.depth)(s[i].parent->0.idx()) < (w.depth)(i) {
+        anc_set(s, w, s[i].parent->0.idx()).insert(i)
+    } else {
+        Set::empty().insert(i)
+    }
+}
+
+pub proof fn lemma_up_shift<T>(s: Seq<Node<T>>, i: int, k: nat)
+    // @props C02
+    requires
+        0 <= i < s.len(),
+        s[i].parent is Some,
+    ensures
+        up(s, i, k + 1) == up(s, s[i].parent->0.idx(), k),
+    decreases k,
+{
+    if k > 0 {
+        lemma_up_shift(s, i, (k - 1) as nat);
+    } else {
+        assert(up(s, i, 1) == s[i].parent->0.idx()) by {
+            assert(up(s, i, 0) == i);
+        }
+    }
+}
+
+pub proof fn lemma_anc_set<T>(s: Seq<Node<T>>, w: Ranks, i: int)
+    // @props C02
+    requires
+        links_ok(s),
+        ranked(s, w),
+        0 <= i < s.len(),
+        !s[i].stamp.removed(),
+    ensures
+        anc_set(s, w, i).len() == height(s, w, i) + 1,
+        forall|j: int| #[trigger] anc_set(s, w, i).contains(j) ==> 0 <= j < s.len() && !s[j].stamp.removed() && (w.depth)(j) <= (w.depth)(i),
+        // the walk really arrives: after height(i) parent steps a parentless node, not earlier
+        s[up(s, i, height(s, w, i))].parent is None,
+        0 <= up(s, i, height(s, w, i)) < s.len(),
+        forall|k: nat| k < height(s, w, i) ==> 0 <= #[trigger] up(s, i, k) < s.len() && s[up(s, i, k)].parent is Some,
+    decreases (w.depth)(i),
+{
+    assert(ranked_at(s, w, i));
+    if s[i].parent is Some {
+        let p = s[i].parent->0.idx();
+        lemma_links_live(s, i);
+        lemma_anc_set(s, w, p);
+        assert(!anc_set(s, w, p).contains(i));
+        let h = height(s, w, p);
+        lemma_up_shift(s, i, h);
+        assert forall|k: nat| k < height(s, w, i) implies 0 <= #[trigger] up(s, i, k) < s.len() && s[up(s, i, k)].parent is Some by {
+            if k > 0 {
+                lemma_up_shift(s, i, (k - 1) as nat);
+            }
+        }
+    } else {
+        assert(height(s, w, i) == 0);
+        assert(up(s, i, 0) == i);
+    }
+}
+
+/// C02: following parent links from a live node reaches a parentless node in fewer steps than there are nodes
+pub proof fn lemma_parent_walk_bound<T>(s: Seq<Node<T>>, w: Ranks, i: int)
+    // @props C02
+    requires
+        links_ok(s),
+        ranked(s, w),
+        0 <= i < s.len(),
+        !s[i].stamp.removed(),
+    ensures
+        height(s, w, i) < live_set(s).len(),
+        live_set(s).len() <= s.len(),
+        0 <= up(s, i, height(s, w, i)) < s.len() && s[up(s, i, height(s, w, i))].parent is None,
+{
+    lemma_anc_set(s, w, i);
+    vstd::set_lib::lemma_int_range(0, s.len() as int);
+    assert(anc_set(s, w, i).subset_of(live_set(s)));
+    vstd::set_lib::lemma_len_subset(anc_set(s, w, i), live_set(s));
+    vstd::set_lib::lemma_len_subset(live_set(s), vstd::set_lib::set_int_range(0, s.len() as int));
+}
+
 pub proof fn lemma_sibling_facts<T>(s: Seq<Node<T>>, i: int)
     // @props C03 C01
     requires
